@@ -695,6 +695,7 @@ func RenderDiff(d *DiffDoc, l Layout) string {
 	for _, a := range d.Actions {
 		w.ws()
 		w.open("action", []attr{{"type", a.Type}}, false)
+		w.unknownChild() // overpass writes e.g. <meta/>-like children here too; they are skipped
 		if a.Elem != nil {
 			w.ws()
 			w.item(*a.Elem)
@@ -705,11 +706,13 @@ func RenderDiff(d *DiffDoc, l Layout) string {
 			w.items(a.Old)
 			w.close("old")
 			w.ws()
+			w.unknownChild()
 			w.open("new", nil, false)
 			w.items(a.New)
 			w.close("new")
 		}
 		w.ws()
+		w.unknownChild()
 		w.close("action")
 	}
 	w.ws()
